@@ -133,6 +133,10 @@ def run_case(case):
             v = []
             if rarlib.View(cfg, g2).counts() != before:
                 v.append(V(site, "draw_changed_refinement_state", f"{before} -> {rarlib.View(cfg, g2).counts()}"))
+            # a reshuffle happens as soon as all *active* points have been served: a batch never starts beyond them
+            for name, cur, act in (("times", getattr(g2, "curr_time_idx", None), before[0]), ("omega", getattr(g2, "curr_omega_idx", None), before[1])):
+                if act is not None and cur is not None and int(cur) >= act:
+                    v.append(V(f"{site}/{name}", "batch_starts_beyond_the_active_points", f"cursor {int(cur)} with {act} active point(s)"))
             return (g2, i, sched), v
         s2 = sched.copy()
         exp = s2.expect_step(i)
